@@ -42,16 +42,12 @@ structure Dev where
 
 def devENOENT : UInt8 := 2
 
-/-- `(id, id bytes)` at the head of a read / write request -/
+/-- bytes of a parameter index in the device's protocol generation -/
+def Dev.idw (d : Dev) : Nat := if d.v2 then 2 else 1
+
+/-- `(id, id bytes)` at the head of a read / write request; `none`: too short, not answered -/
 def Dev.pid (d : Dev) (data : List UInt8) : Option (Nat × List UInt8) :=
-  if d.v2 then
-    match data with
-    | a :: b :: _ => some (a.toNat + 256 * b.toNat, [a, b])
-    | _ => none
-  else
-    match data with
-    | a :: _ => some (a.toNat, [a])
-    | _ => none
+  if d.idw ≤ data.length then some (leVal (data.take d.idw), data.take d.idw) else none
 
 def Dev.setParam (d : Dev) (i : Nat) (f : DevParam → DevParam) : Dev :=
   { d with params := d.params.modify i f }
@@ -59,49 +55,56 @@ def Dev.setParam (d : Dev) (i : Nat) (f : DevParam → DevParam) : Dev :=
 /-- firmware-side change of a value -/
 def Dev.setValue (d : Dev) (i : Nat) (raw : List UInt8) : Dev := d.setParam i (fun p => { p with value := raw })
 
+/-- read: `id [status] value`, status only in the current protocol generation -/
+def Dev.read (d : Dev) (data : List UInt8) : Dev × List Pkt :=
+  match d.pid data with
+  | none => (d, [])
+  | some (i, ib) =>
+    match d.params[i]? with
+    | none => (d, [{ chan := 1, data := if d.v2 then ib ++ [devENOENT] else ib }])
+    | some p => (d, [{ chan := 1, data := ib ++ (if d.v2 then [0] else []) ++ p.value }])
+
+/-- write: the value is taken when the parameter is writable and the width is right; the reply carries the value now in effect -/
+def Dev.write (d : Dev) (data : List UInt8) : Dev × List Pkt :=
+  match d.pid data with
+  | none => (d, [])
+  | some (i, ib) =>
+    match d.params[i]? with
+    | none => (d, [{ chan := 2, data := ib ++ [devENOENT] }])
+    | some p =>
+      let raw := data.drop ib.length
+      if !p.ro && devWidth p.tcode == some raw.length then (d.setValue i raw, [{ chan := 2, data := ib ++ raw }])
+      else (d, [{ chan := 2, data := ib ++ p.value }])
+
+/-- misc command `c` for parameter index `i`: new device state and the reply body after `cmd id16`; `none`: not answered -/
+def Dev.miscBody (d : Dev) (c i : Nat) : Option (Dev × List UInt8) :=
+  if c = 2 ∨ c = 3 ∨ c = 4 ∨ c = 5 ∨ c = 6 then
+    match d.params[i]? with
+    | none => some (d, [devENOENT])
+    | some p =>
+      if c = 2 then some (d, [if p.persistent then 1 else 0])
+      else if c = 6 then some (d, p.dflt)
+      else if !p.persistent then some (d, [devENOENT])
+      else if c = 3 then some (d.setParam i (fun q => { q with stored := some q.value }), [0])
+      else if c = 5 then some (d.setParam i (fun q => { q with stored := none }), [0])
+      else match p.stored with
+        | none => some (d, [0] ++ p.dflt)
+        | some s => some (d, [1] ++ p.dflt ++ s)
+  else none
+
+def Dev.misc (d : Dev) (data : List UInt8) : Dev × List Pkt :=
+  match data with
+  | c :: a :: b :: _ =>
+    match d.miscBody c.toNat (a.toNat + 256 * b.toNat) with
+    | some (d', body) => (d', [{ chan := 3, data := [c, a, b] ++ body }])
+    | none => (d, [])
+  | _ => (d, [])
+
 /-- the reply (at most one) to a request on the PARAM port -/
 def Dev.handle (d : Dev) (rq : Pkt) : Dev × List Pkt :=
-  if rq.chan = 1 then
-    match d.pid rq.data with
-    | none => (d, [])
-    | some (i, ib) =>
-      match d.params[i]? with
-      | none => (d, [{ chan := 1, data := if d.v2 then ib ++ [devENOENT] else ib }])
-      | some p => (d, [{ chan := 1, data := ib ++ (if d.v2 then [0] else []) ++ p.value }])
-  else if rq.chan = 2 then
-    match d.pid rq.data with
-    | none => (d, [])
-    | some (i, ib) =>
-      match d.params[i]? with
-      | none => (d, [{ chan := 2, data := ib ++ [devENOENT] }])
-      | some p =>
-        let raw := rq.data.drop ib.length
-        if !p.ro && devWidth p.tcode == some raw.length then
-          (d.setValue i raw, [{ chan := 2, data := ib ++ raw }])
-        else (d, [{ chan := 2, data := ib ++ p.value }])
-  else if rq.chan = 3 then
-    match rq.data with
-    | c :: a :: b :: _ =>
-      let i := a.toNat + 256 * b.toNat
-      let head := [c, a, b]
-      let err : Dev × List Pkt := (d, [{ chan := 3, data := head ++ [devENOENT] }])
-      match d.params[i]? with
-      | none => if c.toNat = 2 ∨ c.toNat = 3 ∨ c.toNat = 4 ∨ c.toNat = 5 ∨ c.toNat = 6 then err else (d, [])
-      | some p =>
-        if c.toNat = 2 then (d, [{ chan := 3, data := head ++ [if p.persistent then 1 else 0] }])
-        else if c.toNat = 3 then
-          if p.persistent then (d.setParam i (fun q => { q with stored := some q.value }), [{ chan := 3, data := head ++ [0] }]) else err
-        else if c.toNat = 5 then
-          if p.persistent then (d.setParam i (fun q => { q with stored := none }), [{ chan := 3, data := head ++ [0] }]) else err
-        else if c.toNat = 4 then
-          if p.persistent then
-            match p.stored with
-            | none => (d, [{ chan := 3, data := head ++ [0] ++ p.dflt }])
-            | some s => (d, [{ chan := 3, data := head ++ [1] ++ p.dflt ++ s }])
-          else err
-        else if c.toNat = 6 then (d, [{ chan := 3, data := head ++ p.dflt }])
-        else (d, [])
-    | _ => (d, [])
+  if rq.chan = 1 then d.read rq.data
+  else if rq.chan = 2 then d.write rq.data
+  else if rq.chan = 3 then d.misc rq.data
   else (d, [])
 
 /-- the unsolicited `MISC_VALUE_UPDATED` notification for parameter `i`: `01 id16 value` on channel 3 -/
@@ -247,6 +250,37 @@ def expectedMisc : List (Pkt × Option Pending) → List Pkt → List Out
   | (_, some e) :: qs, r :: rs => miscCallsOf (handleMisc e r).1 ++ expectedMisc qs rs
   | (_, none) :: qs, _ :: rs => expectedMisc qs rs
   | _, _ => []
+
+/-- the three bytes of a misc request (and the head of its reply): command, parameter index little-endian -/
+def miscKey (cmd ident : Nat) : List UInt8 := leBytes 1 cmd ++ leBytes 2 ident
+
+/-- the (command, index) a registered reply callback waits for -/
+def Pending.key (e : Pending) : List UInt8 := miscKey e.kind.cmd e.ident
+
+/-- (command, index) of the registered one-shot reply callbacks -/
+def regKeys (pending : List Pending) : List (List UInt8) := (pending.filter (fun e => !e.noElem)).map Pending.key
+
+/-- (command, index) of the misc requests among `G` that were issued without a callback (`persistent_store/clear(name)`) -/
+def cblessKeys (G : List (Pkt × Option Pending)) : List (List UInt8) :=
+  (G.filter (fun x => x.1.chan == 3 && x.2.isNone)).map (·.1.data)
+
+/-- the requests issued so far whose reply has not been delivered yet, oldest first -/
+def unanswered (outs : List Out) : List (Pkt × Option Pending) :=
+  (enqsOf outs).drop (solicited (rxdsOf outs)).length
+
+/-- the side condition of `reply_attribution_partial` (the repaired code still fails without it: finding D5b): the registered
+reply callbacks and the callback-less unanswered misc requests have pairwise distinct (command, parameter index) -/
+def KeysDistinct (pending : List Pending) (G : List (Pkt × Option Pending)) : Prop :=
+  (regKeys pending ++ cblessKeys G).Nodup
+
+/-- `KeysDistinct` holds in every state the run visits (`pre`: outputs so far) -/
+def DistinctAlong (S2F : List Char → Except PyErr Nat) (v : Variant) : Sys → List Out → List Ev → Prop
+  | s, pre, [] => KeysDistinct s.host.pending (unanswered pre)
+  | s, pre, e :: es =>
+    KeysDistinct s.host.pending (unanswered pre) ∧
+      match s.step S2F v e with
+      | none => True
+      | some (s1, o1) => DistinctAlong S2F v s1 (pre ++ o1) es
 
 /-- nothing queued, nothing outstanding, nothing in flight but notifications; host and device agree on the protocol -/
 structure Sys.Idle (s : Sys) : Prop where
